@@ -666,6 +666,15 @@ func checkC09(c *core.Ctx) {
 		{[]string{"write", "parse"}, "- chord: {degree: \"1\", name: m7, base: ~}\n  values: [1]\n"},
 		{[]string{"info", "attr", "describe", "-t", "Major3", "-r", "D♭"}, ""}, {[]string{"info", "attr", "describe", "-t", "Major3", "-r", "xF"}, ""}, {[]string{"info", "attr", "describe", "-t", "Major3", "-r", "C##"}, ""}, {[]string{"info", "attr", "describe", "-t", "Major3", "-r", ""}, ""},
 	}
+	// multi-byte characters in values that are walked character by character (-c, -r, -t, --key)
+	for _, v := range []string{"éd", "d♯s", "ｐｓ", "рd", "d\u0301d", "ds😀p", "\xffd", "d\xe2\x99"} {
+		for _, a := range [][]string{{"info", "key", "conv", "--key", "D", "-c", v}, {"info", "key", "conv", "-c", v}, {"info", "key", "describe", "--key", v}, {"info", "attr", "describe", "-t", "Major3", "-r", v}, {"info", "chord", "describe", "-t", v}, {"write", "conv", "-c", v}} {
+			edges = append(edges, struct {
+				args  []string
+				stdin string
+			}{a, rest})
+		}
+	}
 	// definitions without a degree
 	noDegAttr := c.Scratch.File("nodeg-attr.yml", []byte("- name: Znd\n"))
 	noDegChord := c.Scratch.File("nodeg-chord.yml", []byte("- name: Zc\n  meta: {display: zc}\n  attributes: [Perfect1, Znd]\n"))
@@ -965,6 +974,19 @@ func nonsenseCatalogue(c *core.Ctx) {
 			cases = append(cases, ncase{it.name, "longtext", t, nil})
 		}
 	}
+	// ... and at the beginning of a long piece: the command that meets it first stops there, with hundreds of chords
+	// still to come (whatever walks the rest of the piece must not be left waiting)
+	for _, it := range items {
+		if it.name == "empty piece" {
+			continue
+		}
+		for k, t := range it.text {
+			if k >= 2 {
+				break
+			}
+			cases = append(cases, ncase{it.name, "earlytext", t, nil})
+		}
+	}
 	// two kinds of nonsense at once: every bad command line on every empty document. (`write parse` and
 	// `write conv` do not have to refuse an empty document by themselves, but nonsense in a flag value is
 	// nonsense whether or not there is a first instance to take the override: F-43.)
@@ -1014,12 +1036,15 @@ func nonsenseCatalogue(c *core.Ctx) {
 				refusedSomewhere++
 			}
 			c.Nontrivial(fmt.Sprintf("%s|text|%s", nc.item, nc.payload))
-		case "longtext":
+		case "longtext", "earlytext":
 			unit := "C[1]{lic=la la la la la la la la}\n"
 			if ru := strings.TrimLeft(nc.payload, " "); ru != "" && ru[0] >= '0' && ru[0] <= '9' {
 				unit = "1[1]{lic=la la la la la la la la}\n"
 			}
 			text := strings.Repeat(unit, 1500+r.Intn(2500)) + nc.payload
+			if nc.channel == "earlytext" {
+				text = strings.Repeat(unit, r.Intn(3)) + nc.payload + "\n" + strings.Repeat(unit, 200+r.Intn(800))
+			}
 			for _, cv := range [][]string{{"text", "conv", "degree"}, {"text", "conv", "syllable"}} {
 				r1 := c.Crd.Run(runner.Opt{Stdin: []byte(text)}, cv...)
 				if !judgeOutcome(c, "nonsense", i, strings.Join(cv, " ")+" (long piece)", r1, det) {
@@ -1037,7 +1062,7 @@ func nonsenseCatalogue(c *core.Ctx) {
 					return
 				}
 			}
-			c.Nontrivial(fmt.Sprintf("%s|longtext|%s", nc.item, nc.payload))
+			c.Nontrivial(fmt.Sprintf("%s|%s|%s", nc.item, nc.channel, nc.payload))
 		case "yaml":
 			args := append([]string{}, nc.argv...)
 			var outPath string
